@@ -198,7 +198,13 @@ def check(ctx):
             em = any(re.fullmatch(r"\w+\.email", c) for c in pos)
             ur = any(re.fullmatch(r"\w+\.url", c) for c in pos)
             ok = ((".email()" in r_) == em) and ((".url()" in r_) == ur) and "apply_length_validator(" in r_
-            if ok:
+            # each flag is consulted on every active path: a path that never looks at `url` (an `else if` behind the email test) yields the
+            # same text for url=true and url=false
+            unseen = [fl for fl in ("email", "url") if not any(re.fullmatch(r"(not\()?\w+\.%s\)?" % fl, c) for c in conds)]
+            if unseen:
+                r1.bad(V(r1.id, "ZodSchemaBuilder::apply_string_validators", "flag-not-consulted:%s:email=%s,url=%s" % (",".join(unseen), em, ur),
+                         "on the path email=%s url=%s the flag(s) %s are never tested: the constraint is dropped whenever the other one is declared too" % (em, ur, unseen)))
+            elif ok:
                 r1.ok("string validators email=%s url=%s → %s" % (em, ur, r_))
             else:
                 r1.bad(V(r1.id, "ZodSchemaBuilder::apply_string_validators", "flags:email=%s,url=%s:%s" % (em, ur, r_),
@@ -383,6 +389,26 @@ def check(ctx):
                     r4.bad(V(r4.id, fid_, "bound-through-integer", "%s converts an integer to f64: a bound read through an integer type is lost when the literal does not fit that type"
                              % short_path(fid_), g_.file, st_.get("line")))
     r4.ok("%d validator-parser bodies: no bound goes through an integer type" % n_cast)
+    # a signed bound: the arm that recognises the unary minus of `min = -5` negates what it read from the operand; an arm that only recurses
+    # (or parses the operand) hands back |bound|
+    from srclib import pat_text as _pt
+    for f in vp:
+        for e in walk_block(f.body):
+            if e.get("k") != "match":
+                continue
+            for a in e["arms"]:
+                import json as _json
+                if not re.search(r'"UnOp", "Neg"\]', _json.dumps(a["pat"])):
+                    continue
+                body = a["body"]
+                negates = any((x.get("k") == "unary" and x.get("op") == "-") or (x.get("k") == "mcall" and x["method"] in ("neg", "copysign", "checked_neg", "wrapping_neg"))
+                              or (x.get("k") == "binary" and x.get("op") in ("*", "-") and "-" in expr_text(x)) or (x.get("k") == "macro" and "-" in expr_text(x))
+                              for x in walk(body))
+                if negates:
+                    r4.ok("%s: the unary-minus arm negates the operand's value" % f.name)
+                else:
+                    r4.bad(V(r4.id, "ValidatorParser::" + f.name, "minus-arm-does-not-negate", "%s recognises `-x` but returns the operand's value unchanged (`%s`): "
+                             "`range(min = -5)` becomes .min(5)" % (f.name, expr_text(body)[:60]), f.file, f.line))
     r4.require_floor(5, "parsing functions + item walks")
     rules.append(r4)
 
